@@ -271,7 +271,7 @@ E_SETTLED = [x for x in D_SETTLED if x not in ('s.adj_max_dist == inf', 'sc == 0
 def ea_cases():
     out = []
     for il, inner, m in (('sq', 'squared euclidean', 0), ('eu', 'euclidean', 1)):
-        kw = dict(KW, inner_dist=('const', inner), psi='none', max_dist='val', use_pruning=('const', False))
+        kw = dict(KW, inner_dist=('const', inner), psi='none', max_dist='val+', use_pruning=('const', False), max_length_diff='none')
         out.append(dict(label='%s/maxdist' % il, params={'kwargs': kw}, metric=m, psi='nopsi'))
     return out
 
@@ -285,8 +285,11 @@ _ea.requires = ['%s >= 1' % R, '%s >= 1' % C, 'kwargs["window"] is None or kwarg
                 'not (MaxDistAdj(%s, kwargs["max_dist"]) < 0)' % METRIC, 'MaxDistAdj(%s, kwargs["max_dist"]) != 0' % METRIC]
 _ea.ensures = [
     # early abandoning does not change the result: the unbounded value if it is within the (internal) bound, else inf
-    'implies(not (MaxDistAdj(%s, kwargs["max_dist"]) < Dend(0, 0)), result == vsqrt_if(%s, Dend(0, 0)))' % (METRIC, METRIC),
+    # (as the property states it: below the bound -> the unbounded value, above -> inf, never another finite number; which of
+    #  the two is returned when the accumulated cost equals the internal bound exactly is left open by the property)
+    'implies(Dend(0, 0) < MaxDistAdj(%s, kwargs["max_dist"]), result == vsqrt_if(%s, Dend(0, 0)))' % (METRIC, METRIC),
     'implies(MaxDistAdj(%s, kwargs["max_dist"]) < Dend(0, 0), result == inf)' % METRIC,
+    'result == inf or result == vsqrt_if(%s, Dend(0, 0))' % METRIC,
 ]
 _ea.loops = {
     0: _CT['dtw.distance'].loops[0],
@@ -312,8 +315,7 @@ _ea.loops = {
                              # this row: visited or skipped cells agree, the others still hold inf
                              'forall(lambda col: implies(JSrow(i, r, c, s.window) <= col <= j and col <= c and 0 <= col - skip < length, '
                              'Agree(%s, dtw[i1 * length + col - skip], W(i + 1, col))), pattern=W(i + 1, col))' % M_,
-                             'forall(lambda col: implies(JSrow(i, r, c, s.window) <= col <= c and j < col and 0 <= col - skip < length, '
-                             'dtw[i1 * length + col - skip] == inf))',
+                             'forall(lambda k: implies(i1 * length <= k < i1 * length + length and i1 * length + j - skip < k, dtw[k] == inf))',
                              LEFT.format(i='i + 1', row='i1'),
                              # pruning bookkeeping
                              ABOVE_L.format(sc='sc', i='i + 1'),
@@ -322,18 +324,116 @@ _ea.loops = {
                              'ec_next >= 0'],
             variant='j_end - j'),
 }
-_ea.hints = {'d = idist_fn(': ['Mention(W(i, j)) and Mention(W(i, j + 1)) and Mention(W(i + 1, j)) and Mention(W(i + 1, j + 1))'],
+_ea.hints = {'d = idist_fn(': ['Mention(W(i, j)) and Mention(W(i, j + 1)) and Mention(W(i + 1, j)) and Mention(W(i + 1, j + 1))',
+                               # without a window the band is the whole matrix (spares the solver the case analysis on max(r, c))
+                               'implies(kwargs["window"] is None, skip == 0 and skipp == 0 and length == c + 1 and '
+                               'JSrow(i, r, c, s.window) == 0 and JErow(i, r, c, s.window) == c)',
+                               # the three cells read by the step agree with the specification
+                               'Agree(%s, dtw[i0 * length + j - skipp], W(i, j))' % M_,
+                               'Agree(%s, dtw[i0 * length + j + 1 - skipp], W(i, j + 1))' % M_,
+                               'Agree(%s, dtw[i1 * length + j - skip], W(i + 1, j))' % M_],
              # before the row is filled: the border cell of this row is above the bound (term + fact for RowAboveLeft)
              'smaller_found = False': ['%s < W(i + 1, 0)' % M_, 'implies(i >= 1, %s < W(i, 0))' % M_],
              # the cell just written is above the bound (both branches of the pruning test that follow rely on it)
              'sc = j + 1': ['%s < W(i + 1, j + 1)' % M_],
-             'break': ['%s < W(i + 1, j + 1)' % M_,
-                       'forall(lambda col: implies(j + 1 <= col <= c, %s < W(i + 1, col)), pattern=W(i + 1, col))' % M_],
              # after the cell is written: name the step (trigger of lemma AgreeStep), then state its agreement
              'dtw[i1 * length + j + 1 - skip] = d + min(': [
                  'AStep(%s, i + 1, j + 1, dtw[i0 * length + j - skipp], dtw[i0 * length + j + 1 - skipp], dtw[i1 * length + j - skip])' % M_,
-                 'Agree(%s, dtw[i1 * length + j + 1 - skip], W(i + 1, j + 1))' % M_]}
+                 'Agree(%s, dtw[i1 * length + j + 1 - skip], W(i + 1, j + 1))' % M_,
+                 # the row so far (stated once here, before the pruning bookkeeping branches)
+                 'forall(lambda col: implies(JSrow(i, r, c, s.window) <= col <= j + 1 and col <= c and 0 <= col - skip < length, '
+                 'Agree(%s, dtw[i1 * length + col - skip], W(i + 1, col))), pattern=W(i + 1, col))' % M_]}
+_ea.hints_before = {
+             # a cell whose point cost exceeds max_step is inf in the specification, hence above the bound
+             'continue': ['%s < W(i + 1, j + 1)' % M_],
+             # first statement of the branch "cell above the bound": the specification cell is above the bound too
+             'if not smaller_found': ['%s < W(i + 1, j + 1)' % M_],
+             'break': ['%s < W(i + 1, j + 1)' % M_,
+                       'forall(lambda col: implies(j + 1 <= col <= c, %s < W(i + 1, col)), pattern=W(i + 1, col))' % M_,
+                       # the row as it is left behind: agreement up to the cell just written, inf beyond it
+                       'forall(lambda col: implies(JSrow(i, r, c, s.window) <= col <= j + 1 and col <= c and 0 <= col - skip < length, '
+                       'Agree(%s, dtw[i1 * length + col - skip], W(i + 1, col))), pattern=W(i + 1, col))' % M_,
+                       'forall(lambda k: implies(i1 * length <= k < i1 * length + length and i1 * length + j + 1 - skip < k, dtw[k] == inf))']}
 _ea.theories = ('dtw', 'bounds', 'nonneg', 'astep', 'sqrtmono')
 _ea.lemmas = ['CellAbove', 'RowAboveLeft', 'RowAboveRight', 'AgreeStep', 'RowAllInf', 'RowLeadInf']
 _ea.props = ('C03',)
 _CT['dtw.distance#maxdist'] = _ea
+
+
+# ---------------------------------------------------------------------------------------------
+# dtw.warping_paths with max_dist (C03, cost-matrix route of the Python engine): the value obeys the same
+# postcondition as dtw.distance#maxdist, and every cell of the returned matrix that the specification puts at or
+# below the bound is exact.  Where the final test compares a square-rooted value with the user's bound
+# (squared-Euclidean inner distance without keep_int_repr) the answer depends on the sqrt/square round trip, which
+# the property excludes and level O cannot express: that configuration stays with the bounded sweep.
+def wpea_cases():
+    out = []
+    for il, inner, m, kir in (('eu', 'euclidean', 1, 'bool'), ('sq', 'squared euclidean', 0, ('const', True))):
+        kw = dict(KW, inner_dist=('const', inner), psi='none', max_dist='val+', use_pruning=('const', False), max_length_diff='none')
+        out.append(dict(label='%s/maxdist' % il, params={'kwargs': kw, 'keep_int_repr': kir}, metric=m, psi='nopsi'))
+    return out
+
+
+_MA = 'MaxDistAdj(%s, kwargs["max_dist"])' % METRIC
+_WRES = lambda x: '(%s if keep_int_repr else vsqrt_if(%s, %s))' % (x, METRIC, x)      # noqa: E731
+W_SETTLED = [x for x in SETTLED if x not in ('s.adj_max_dist == inf', 'sc == 0')] + [
+    '%s < inf' % M_, 'not (%s < 0)' % M_, 'sc >= 0', 'ec >= 0', 'psi_1b == 0', 'psi_2b == 0', 'psi_1e == 0', 'psi_2e == 0',
+    '%s == %s' % (M_, _MA), 's.window >= 1', 'r >= 1', 'c >= 1']
+ROWS_AG = ('forall(lambda a, b: implies(0 <= a <= {upto} and 0 <= b <= %s, Agree(%s, dtw[a, b], W(a, b))), pattern=W(a, b))' % (C, M_))
+ROWS_INF = 'forall(lambda a, b: implies({frm} < a <= %s and 0 <= b <= %s, dtw[a, b] == inf))' % (R, C)
+_we = _copy.copy(_CT['dtw.warping_paths'])
+_we.name = 'dtw.warping_paths#maxdist'
+_we.params = dict(_CT['dtw.warping_paths'].params, keep_int_repr='bool', psi_neg=('const', False))
+_we.cases = wpea_cases()
+_we.requires = ['%s >= 1' % R, '%s >= 1' % C, 'kwargs["window"] is None or kwargs["window"] >= 1',
+                'kwargs["penalty"] is None or kwargs["penalty"] >= 0',
+                'kwargs["max_dist"] > 0', '%s < inf' % _MA, 'not (%s < 0)' % _MA, '%s != 0' % _MA]
+_we.ensures = [
+    'implies(W(%s, %s) < %s, result[0] == %s)' % (R, C, _MA, _WRES('W(%s, %s)' % (R, C))),
+    'implies(%s < W(%s, %s), result[0] == inf)' % (_MA, R, C),
+    'result[0] == inf or result[0] == %s' % _WRES('W(%s, %s)' % (R, C)),
+    # the matrix: a cell the specification does not put above the bound is exact
+    'forall(lambda a, b: implies(0 <= a <= %s and 0 <= b <= %s and not (%s < W(a, b)), result[1][a, b] == %s))'
+    % (R, C, _MA, _WRES('W(a, b)')),
+]
+_we.loops = {
+    0: _CT['dtw.warping_paths'].loops[0],
+    1: _CT['dtw.warping_paths'].loops[1],
+    2: dict(head='for i in range(r)',
+            inv=W_SETTLED + ['i1 == i', ROWS_AG.format(upto='i'), ROWS_INF.format(frm='i'),
+                             'implies(i == 0, sc == 0 and ec == 0)',
+                             ABOVE_L.format(sc='sc', i='i'), ABOVE_R.format(ec='ec', i='i')],
+            variant='r - i'),
+    3: dict(head='for j in range(j_start, j_end)',
+            inv=W_SETTLED + ['i0 == i', 'i1 == i + 1', '0 <= i < r',
+                             'j_start >= JSrow(i, r, c, s.window)', 'j_end == JErow(i, r, c, s.window)',
+                             ROWS_AG.format(upto='i'), ROWS_INF.format(frm='i + 1'), ABOVE_R.format(ec='ec', i='i'),
+                             'forall(lambda b: implies(0 <= b <= j and b <= %s, Agree(%s, dtw[i + 1, b], W(i + 1, b))), '
+                             'pattern=W(i + 1, b))' % (C, M_),
+                             'forall(lambda b: implies(j < b <= %s, dtw[i + 1, b] == inf))' % C,
+                             ABOVE_L.format(sc='sc', i='i + 1'),
+                             'implies(not smaller_found, forall(lambda col: implies(1 <= col <= j, %s < W(i + 1, col)), pattern=W(i + 1, col)))' % M_,
+                             'forall(lambda col: implies(ec_next < col <= j, %s < W(i + 1, col)), pattern=W(i + 1, col))' % M_,
+                             'ec_next >= 0'],
+            variant='j_end - j'),
+}
+_we.hints = {'d = cost(': ['Mention(W(i, j)) and Mention(W(i, j + 1)) and Mention(W(i + 1, j)) and Mention(W(i + 1, j + 1))',
+                           'Agree(%s, dtw[i0, j], W(i, j))' % M_, 'Agree(%s, dtw[i0, j + 1], W(i, j + 1))' % M_,
+                           'Agree(%s, dtw[i1, j], W(i + 1, j))' % M_],
+             'smaller_found = False': ['%s < W(i + 1, 0)' % M_, 'implies(i >= 1, %s < W(i, 0))' % M_],
+             'dtw[i1, j + 1] = d + min(': [
+                 'AStep(%s, i + 1, j + 1, dtw[i0, j], dtw[i0, j + 1], dtw[i1, j])' % M_,
+                 'Agree(%s, dtw[i1, j + 1], W(i + 1, j + 1))' % M_,
+                 'forall(lambda b: implies(0 <= b <= j + 1 and b <= %s, Agree(%s, dtw[i + 1, b], W(i + 1, b))), pattern=W(i + 1, b))' % (C, M_)]}
+_we.hints_before = {
+    'continue': ['%s < W(i + 1, j + 1)' % M_],
+    'if not smaller_found': ['%s < W(i + 1, j + 1)' % M_],
+    'break': ['%s < W(i + 1, j + 1)' % M_,
+              'forall(lambda col: implies(j + 1 <= col <= c, %s < W(i + 1, col)), pattern=W(i + 1, col))' % M_,
+              'forall(lambda b: implies(0 <= b <= j + 1 and b <= %s, Agree(%s, dtw[i + 1, b], W(i + 1, b))), pattern=W(i + 1, b))' % (C, M_),
+              'forall(lambda b: implies(j + 1 < b <= %s, dtw[i + 1, b] == inf))' % C]}
+_we.theories = ('dtw', 'bounds', 'nonneg', 'astep', 'sqrtmono')
+_we.lemmas = ['CellAbove', 'RowAboveLeft', 'RowAboveRight', 'AgreeStep']
+_we.returns = ('tuple', 'val', 'matrix')
+_we.props = ('C03',)
+_CT['dtw.warping_paths#maxdist'] = _we
